@@ -13,8 +13,14 @@ PROP_FILE = "Properties/C05.v"
 TRUSTED = [
     "translator/c05.py: what it reads from pyxel/observation/{misc,observation}.py is believed (name fallback and third "
     "naming stage, enabled_steps filters, short(), CustomMode.build guards and column selection, convert_custom_data "
-    "column addressing and scalar test, the dimensions _add_custom_parameters gives a vector parameter); it fails closed "
-    "on any other shape",
+    "column addressing and scalar test, the dimensions _add_custom_parameters gives a vector parameter, whether "
+    "_get_parameter_types rebuilds its dict); it fails closed on any other shape",
+    "that Observation.parameter_types is the ONLY state the run path keeps between two runs of one object is a syntactic "
+    "net of the translator (declared fields of the mode classes, attributes set by the constructors, no write to an "
+    "attribute / item of self, cls, an argument or a module-level name, no setattr / __dict__ / vars, no memoisation "
+    "decorator or import, no module- or class-level variable, no mutable default) over observation/{misc,observation,"
+    "observation_dask,parameter_values}.py, evaluator.py and the key access of pipelines/processor.py; state hidden "
+    "behind an alias or inside a called library is only found by the history leg (testing)",
     "the loops of the three modes (itertools.product / the sequential double loop / the column cursor) and of the dask "
     "path (create_params, run_pipelines_with_dask) are hand-written in Model/ParamSpace.v and tied to the code only by "
     "the correspondence leg (testing)",
@@ -182,6 +188,50 @@ def gen_values(r, s, style=None, nodup=False, fine=False):
     return p
 
 
+def fill_custom_table(r, case, slots, kind="valid", dask=False, fine=False):
+    """Table, column range and file type of a custom-mode case, fitting the enabled placeholder parameters
+    (kind "width_mismatch": deliberately not fitting; "no_range": without a column range)."""
+    params = case["params"]
+    widths = []
+    cols = []
+    for p in params:
+        if p["enabled"] and p["kind"] != "lit":
+            w = 1 if p["kind"] == "under" else p["n"]
+            widths.append(w)
+            cols += [slots[p["slot"]]] * w
+    total = sum(widths)
+    nrows = r.randrange(1, 7)
+    extra_l = r.choice([0, 0, 0, 1, 2])
+    if dask and r.random() < 0.8:
+        extra_l = 0             # the dask path addresses the selected columns by the labels 0,1,..
+    extra_r = r.choice([0, 0, 1])
+    ncols = total
+    if kind == "width_mismatch":
+        ncols = max(1, total + r.choice([-1, 1, 1, 2]))
+        if ncols == total:
+            ncols += 1
+    table = []
+    for _ in range(nrows):
+        row = [r.randrange(1, 8) for _ in range(extra_l)]
+        for j in range(ncols):
+            s = cols[j] if j < len(cols) else dict(lo=1, hi=8, vlen=0, key="")
+            if s["key"] == ADC:
+                row.append(8 * (1 + (j % 2) * 3) + r.randrange(0, 8))
+            elif s.get("neg"):
+                row.append(rand_val(r, dict(s, vlen=0)))
+            else:
+                row.append(r.randrange(s["lo"], s["hi"] + 1))
+        row += [r.randrange(1, 8) for _ in range(extra_r)]
+        table.append(row)
+    case["table"] = table
+    case["range"] = [extra_l, extra_l + ncols - 1] if ncols > 0 else [extra_l, extra_l]
+    if kind == "no_range":
+        case["range"] = None
+    # text tables only for n/8 values: pandas' default float parser is not correctly rounded for 17-digit decimals
+    # (reading files faithfully is C20's subject)
+    case["file"] = "txt" if (len(table[0]) >= 2 and r.random() < 0.3 and not fine) else "npy"
+
+
 def gen_case(r, mode=None, lay=None, kind="valid", dask=False, style=None, nodup=None, neg=None, nparams=None,
              fine=None):
     """dask: run on the dask path; style: order of the value lists (None | "desc" | "unsorted" | "mixed" = drawn
@@ -263,48 +313,11 @@ def gen_case(r, mode=None, lay=None, kind="valid", dask=False, style=None, nodup
                     p["values"] = p["values"][:-1]
                     p.pop("expr", None)
                 tot *= len(p["values"])
-    case = dict(mode=mode, layout=lay, probes=probes, params=params, dask=bool(dask), fine=bool(fine),
+    case = dict(mode=mode, layout=lay, probes=probes, params=params, dask=bool(dask), fine=bool(fine), neg=bool(neg),
                 inherit=bool(dask or r.random() >= 0.12),        # with_inherited_coords (the dask path requires True)
                 slots=[dict(key=s["key"], default=s["default"]) for s in slots], table=[], range=None, file="npy")
     if mode == "custom":
-        widths = []
-        cols = []
-        for p in params:
-            if p["enabled"] and p["kind"] != "lit":
-                w = 1 if p["kind"] == "under" else p["n"]
-                widths.append(w)
-                cols += [slots[p["slot"]]] * w
-        total = sum(widths)
-        nrows = r.randrange(1, 7)
-        extra_l = r.choice([0, 0, 0, 1, 2])
-        if dask and r.random() < 0.8:
-            extra_l = 0             # the dask path addresses the selected columns by the labels 0,1,..
-        extra_r = r.choice([0, 0, 1])
-        ncols = total
-        if kind == "width_mismatch":
-            ncols = max(1, total + r.choice([-1, 1, 1, 2]))
-            if ncols == total:
-                ncols += 1
-        table = []
-        for _ in range(nrows):
-            row = [r.randrange(1, 8) for _ in range(extra_l)]
-            for j in range(ncols):
-                s = cols[j] if j < len(cols) else dict(lo=1, hi=8, vlen=0, key="")
-                if s["key"] == ADC:
-                    row.append(8 * (1 + (j % 2) * 3) + r.randrange(0, 8))
-                elif s.get("neg"):
-                    row.append(rand_val(r, dict(s, vlen=0)))
-                else:
-                    row.append(r.randrange(s["lo"], s["hi"] + 1))
-            row += [r.randrange(1, 8) for _ in range(extra_r)]
-            table.append(row)
-        case["table"] = table
-        case["range"] = [extra_l, extra_l + ncols - 1] if ncols > 0 else [extra_l, extra_l]
-        if kind == "no_range":
-            case["range"] = None
-        # text tables only for n/8 values: pandas' default float parser is not correctly rounded for 17-digit decimals
-        # (reading files faithfully is C20's subject)
-        case["file"] = "txt" if (len(table[0]) >= 2 and r.random() < 0.3 and not fine) else "npy"
+        fill_custom_table(r, case, slots, kind=kind, dask=dask, fine=fine)
     return case
 
 
@@ -316,17 +329,262 @@ def canon(case):
 CORPUS = core.VERIF / "harness" / "corpus" / "C05"
 
 
-def load_corpus():
-    """Minimised past failures (formerly failing inputs of repaired defects, inputs that exposed seeded changes)."""
+def load_corpus(histories=False):
+    """Minimised past failures (formerly failing inputs of repaired defects, inputs that exposed seeded changes).
+    An entry with a "history" key is a history on one object (run, edit, run ...); the others are single runs."""
     out = []
     if CORPUS.is_dir():
         for f in sorted(CORPUS.glob("*.json")):
             data = json.loads(f.read_text())
             for c in (data if isinstance(data, list) else [data]):
-                c.setdefault("dask", False)
+                if ("history" in c) != histories:
+                    continue
+                for st in (c["history"] if histories else [c]):
+                    st.setdefault("dask", False)
                 c["corpus"] = f.name
                 out.append(c)
     return out
+
+
+# ------------------------------------------------------------------------------------------ histories on one object
+
+
+def _slots_meta(case):
+    _, slots = layout(case["layout"])
+    for s in slots:
+        if case.get("neg") and s["arg"] is not None:
+            s["neg"] = True
+    return slots
+
+
+def _bound_product(step):
+    if step["mode"] != "product":
+        return
+    tot = 1
+    for p in step["params"]:
+        if p["enabled"] and p["kind"] == "lit":
+            while tot * len(p["values"]) > (12 if step["dask"] else 24) and len(p["values"]) > 1:
+                p["values"] = p["values"][:-1]
+                p.pop("expr", None)
+            tot *= len(p["values"])
+
+
+EDIT_KINDS = ["default", "default", "default_unswept", "values", "toggle", "reorder", "drop", "add", "table", "dask",
+              "mode", "nothing", "placeholder"]
+
+
+def edit_step(r, prev, kind):
+    """The next configuration of a history: a copy of `prev` with one edit of the given kind (and, in custom mode, a
+    table that fits the edited parameters).  Returns (step, kind actually applied)."""
+    import copy
+    step = copy.deepcopy(prev)
+    step.pop("corpus", None)
+    slots = _slots_meta(step)
+    fine = bool(step.get("fine"))
+    en = [p for p in step["params"] if p["enabled"]]
+    custom = step["mode"] == "custom"
+    refit = False
+    if kind in ("default", "default_unswept"):
+        swept = {p["key"] for p in en}
+        pool = [i for i, s in enumerate(slots) if (s["key"] in swept) == (kind == "default")]
+        if not pool:
+            pool = list(range(len(slots)))
+        for i in r.sample(pool, r.choice([1, 1, 2]) if len(pool) > 1 else 1):
+            old = step["slots"][i]["default"]
+            for _ in range(8):
+                v = rand_val(r, slots[i])
+                if v != old:
+                    break
+            step["slots"][i]["default"] = v
+            if slots[i]["arg"] is not None:         # keep the description of a NEW object with this configuration in step
+                step["probes"][slots[i]["probe"]]["args"][slots[i]["arg"]] = v
+    elif kind == "values":
+        lits = [p for p in en if p["kind"] == "lit"]
+        if not lits:
+            kind = "table"
+        else:
+            p = r.choice(lits)
+            q = gen_values(r, slots[p["slot"]], style=r.choice([None, "desc", "unsorted"]), nodup=step["dask"], fine=fine)
+            for k in ("values", "expr", "ints"):
+                p.pop(k, None)
+            p.update(q)
+    elif kind == "toggle":
+        p = r.choice(step["params"])
+        p["enabled"] = not p["enabled"]
+        if not any(q["enabled"] for q in step["params"]):
+            p["enabled"] = True
+            others = [q for q in step["params"] if q is not p]
+            if others:
+                r.choice(others)["enabled"] = False
+            else:
+                kind = "nothing"
+        refit = True
+    elif kind == "reorder":
+        if len(step["params"]) < 2:
+            kind = "default"
+            return edit_step(r, prev, kind)
+        old = [p["key"] for p in step["params"]]
+        for _ in range(6):
+            r.shuffle(step["params"])
+            if [p["key"] for p in step["params"]] != old:
+                break
+        refit = True
+    elif kind == "drop":
+        if len(step["params"]) < 2:
+            return edit_step(r, prev, "add")
+        del step["params"][r.randrange(len(step["params"]))]
+        if not any(q["enabled"] for q in step["params"]):
+            step["params"][0]["enabled"] = True
+        refit = True
+    elif kind == "add":
+        used = {p["key"] for p in step["params"]}
+        pool = [i for i, s in enumerate(slots) if s["key"] not in used]
+        if not pool:
+            return edit_step(r, prev, "values" if not custom else "table")
+        i = r.choice(pool)
+        sl = slots[i]
+        if custom:
+            p = dict(kind="under") if sl["vlen"] == 0 else dict(kind="unders", n=sl["vlen"])
+        else:
+            p = gen_values(r, sl, style=r.choice([None, "unsorted"]), nodup=step["dask"], fine=fine)
+        p.update(key=sl["key"], enabled=True, slot=i)
+        step["params"].insert(r.randrange(len(step["params"]) + 1), p)
+        refit = True
+    elif kind == "table":
+        if not custom:
+            return edit_step(r, prev, "values")
+        refit = True
+    elif kind == "dask":
+        step["dask"] = not step["dask"]
+        if step["dask"]:
+            step["inherit"] = True
+            for p in step["params"]:                    # the dask path of product mode merges a value listed twice
+                if p["kind"] == "lit" and step["mode"] == "product":
+                    seen = []
+                    for v in p["values"]:
+                        if v not in seen:
+                            seen.append(v)
+                    if len(seen) != len(p["values"]):
+                        p["values"] = seen
+                        p.pop("expr", None)
+    elif kind == "placeholder":
+        # a request that must be refused ('_' outside custom mode) -- or, if the previous one was, a valid one again
+        if custom:
+            return edit_step(r, prev, "table")
+        ph = [p for p in step["params"] if p["kind"] != "lit"]
+        if ph:
+            for p in ph:
+                q = gen_values(r, slots[p["slot"]], nodup=step["dask"], fine=fine)
+                p.pop("n", None)
+                p.update(q)
+            kind = "unplaceholder"
+        else:
+            p = r.choice(en)
+            for k in ("values", "expr", "ints"):
+                p.pop(k, None)
+            sl = slots[p["slot"]]
+            p.update(dict(kind="under") if sl["vlen"] == 0 else dict(kind="unders", n=sl["vlen"]))
+    elif kind == "mode":
+        if custom:
+            return edit_step(r, prev, "table")
+        step["mode"] = "sequential" if step["mode"] == "product" else "product"
+        if step["mode"] == "product":
+            # product mode needs distinct keys
+            seen, keep = set(), []
+            for p in step["params"]:
+                if p["key"] not in seen:
+                    keep.append(p)
+                    seen.add(p["key"])
+            step["params"] = keep
+    if custom and (refit or kind == "table"):
+        fill_custom_table(r, step, slots, dask=step["dask"], fine=fine)
+    _bound_product(step)
+    step["edit"] = kind
+    if kind == "mode":
+        step["edit_style"] = "rebuild"
+    elif kind in ("default", "default_unswept", "dask", "nothing"):
+        step["edit_style"] = "replace"
+    else:
+        step["edit_style"] = r.choice(["replace", "replace", "inplace", "rebuild"])
+    # the next run gets the SAME detector and pipeline objects, edited in place -- or new ones with that configuration
+    step["objects"] = "new" if r.random() < 0.3 else "same"
+    return step, kind
+
+
+def gen_history(r, mode=None, lay=None, dask=None, edits=None, nruns=None, fine=None):
+    """2..3 runs of ONE Observation object; between the runs one edit each of the declared configuration."""
+    if dask is None:
+        dask = r.random() < 0.4
+    mode = mode or r.choice(["product", "sequential", "sequential", "sequential", "custom"])
+    first = gen_case(r, mode, lay, dask=dask, style=r.choice([None, "unsorted"]), nodup=True if dask else None,
+                     fine=fine, nparams=r.choice([2, 2, 3, 3, 4]))
+    first["edit"] = "first"
+    steps = [first]
+    nruns = nruns or r.choice([2, 2, 3])
+    for k in range(1, nruns):
+        kind = edits[k - 1] if edits and k - 1 < len(edits) else r.choice(EDIT_KINDS)
+        step, _ = edit_step(r, steps[-1], kind)
+        steps.append(step)
+    return dict(history=steps)
+
+
+def enum_histories(r):
+    """Thorough tier: exhaustive small scope of two-run histories -- every ordered pair of distinct configurations out
+    of {sweep a | a, b | b, a | a and b disabled} x {two sets of configured values}, sequential and product mode, both
+    paths; the second configuration is reached by editing the object that ran the first."""
+    import copy
+    import itertools
+    out = []
+    base = gen_case(r, "product", "L3", nparams=1, neg=False, fine=False, dask=False)
+    idx = {s["key"]: i for i, s in enumerate(base["slots"])}
+    _, meta = layout("L3")
+    ka, kb = P1.format(m="m1") + "a", P2.format(m="m2") + "a"
+
+    def conf(mode, dask, params, defaults):
+        c = copy.deepcopy(base)
+        c.update(mode=mode, dask=dask, inherit=True, table=[], range=None,
+                 params=[dict(p, slot=idx[p["key"]]) for p in params])
+        for k, v in defaults.items():
+            c["slots"][idx[k]]["default"] = v
+            c["probes"][meta[idx[k]]["probe"]]["args"][meta[idx[k]]["arg"]] = v
+        return c
+
+    pa = dict(kind="lit", key=ka, values=[24, 8], enabled=True)
+    pb = dict(kind="lit", key=kb, values=[40], enabled=True)
+    variants = [[pa], [pa, pb], [pb, pa], [pa, dict(pb, enabled=False)]]
+    defaults = [{ka: 5, kb: 50}, {ka: 7, kb: 56}]
+    for mode in ("sequential", "product"):
+        for dask in (False, True):
+            confs = [conf(mode, dask, v, d) for v in variants for d in defaults]
+            for i, j in itertools.permutations(range(len(confs)), 2):
+                a, b = copy.deepcopy(confs[i]), copy.deepcopy(confs[j])
+                a["edit"] = "first"
+                b.update(edit="enum", edit_style="replace", objects="same")
+                out.append(dict(history=[a, b]))
+    return out
+
+
+def gen_histories(ctx: Ctx, budget: int):
+    r = ctx.rng("histories")
+    out = load_corpus(histories=True)
+    # every kind of edit in every mode, both paths, first
+    for mode in ("sequential", "product", "custom"):
+        for dask in (False, True):
+            for kind in ("default", "toggle", "reorder", "values", "drop", "add", "default_unswept"):
+                out.append(gen_history(r, mode, "L1" if kind != "toggle" else "L3", dask=dask, edits=[kind], nruns=2,
+                                       fine=False))
+    for dask in (False, True):
+        out.append(gen_history(r, "product", "L1", dask=dask, edits=["placeholder", "placeholder"], nruns=3))
+        out.append(gen_history(r, "custom", "L1", dask=dask, edits=["table", "default"], nruns=3))
+        out.append(gen_history(r, "sequential", "L1", dask=dask, edits=["dask", "default"], nruns=3))
+        out.append(gen_history(r, "product", "L3", dask=dask, edits=["mode", "toggle"], nruns=3))
+        out.append(gen_history(r, "sequential", "L3", dask=dask, edits=["nothing", "default"], nruns=3))
+    while len(out) < budget:
+        out.append(gen_history(r))
+    extra = [] if ctx.quick else enum_histories(ctx.rng("enum_histories"))
+    ctx.cov["exhaustive_small_scope_histories"] = len(extra)
+    return out + extra
+
 
 
 def gen_dask_case(r, mode=None):
@@ -501,7 +759,7 @@ def _has_dup(p):
 # source no longer has is never used to explain a violation
 FLAGS = dict(name_fallback_full=False, name_stage3=False, custom_dims_distinct=False, custom_range_optional=False,
              dask_custom_positional=False, dask_custom_scalar_is_placeholder=False, dask_product_dedup=False,
-             dask_sequential_rows=False)
+             dask_sequential_rows=False, types_fresh=False)
 
 
 def set_flags(gen_text: str):
@@ -709,6 +967,204 @@ def shrink(ctx: Ctx, c, o, explained, rounds=8):
     return c, o, explained
 
 
+# ------------------------------------------------------------------------------------------ history leg
+
+
+def emit_hist_file(hpairs) -> str:
+    """hpairs: [[(step, observed), ...], ...]"""
+    body = ";\n  ".join("[" + ";\n   ".join(emit_case(c, o) for c, o in h) + "]" for h in hpairs)
+    return ("From Coq Require Import ZArith List String.\nFrom PyxelV Require Import Model.ParamSpace.\n"
+            "From PyxelGen Require Import Gen_C05.\n"
+            "Import ListNotations.\nLocal Open Scope list_scope.\nLocal Open Scope nat_scope.\n"
+            f"Definition hists : list (list case) := [\n  {body}\n].\n"
+            "Eval vm_compute in hist_mismatches src_cfg hists.\nEval vm_compute in hist_violations src_cfg hists.\n")
+
+
+def _hist_pairs(ctx, hists, obs):
+    out = []
+    for h, o in zip(hists, obs):
+        if "crash" in o or "driver_error" in o or "history" not in o:
+            ctx.broken.append(Broken("correspondence", "implementation driver failed (history)", str(o)[:600], h))
+            continue
+        out.append((h, list(zip(h["history"], o["history"]))))
+    return out
+
+
+def _stale_keys(steps, k) -> bool:
+    """Do the enabled keys of the earlier runs differ (as an ordered list of first occurrences) from those of run k?"""
+    def keys(st):
+        return list(dict.fromkeys(p["key"] for p in st["params"] if p["enabled"]))
+    acc = []
+    for st in steps[:k]:
+        for key in keys(st):
+            if key not in acc:
+                acc.append(key)
+    for key in keys(steps[k]):
+        if key not in acc:
+            acc.append(key)
+    return acc != keys(steps[k])
+
+
+def hist_violation(h, pairs, k, explained, alone_ok) -> Violation:
+    """Run k of the history breaks the specification for the configuration at that time.  alone_ok: a new object
+    with that configuration does what was asked (the violation needs the history)."""
+    steps = [c for c, _ in pairs]
+    c, o = pairs[k]
+    if alone_ok is False:
+        clause = classify(c, o, explained)              # the configuration alone already fails
+    elif explained and not FLAGS["types_fresh"] and _stale_keys(steps, k):
+        clause = "history_stale_parameter_types"
+    else:
+        clause = "history_run_differs"
+    sig = dict(clause=clause, mode=c["mode"], dask=bool(c.get("dask")), history=True)
+    en = [p for p in c["params"] if p["enabled"]]
+    what = (f"run {k + 1} of {len(steps)} on ONE Observation object ({c['mode']}"
+            f"{', with_dask=True' if c.get('dask') else ''}; edits: {[st.get('edit') for st in steps[1:k + 1]]}) over "
+            f"{[p['key'] for p in en]}: {clause}"
+            + (f" ({o['raised']}: {o.get('msg', '')[:120]})" if o.get("raised") else ""))
+    v = Violation(clause=clause, case=dict(history=steps[:k + 1]),
+                  observed=dict(run=k, raised=o["raised"], runs=o["runs"], result=o["result"][:40]),
+                  expected="every run of a history does what a NEW object with the configuration at that time does: "
+                           "exactly the requested runs, each found under its own labels with its own data "
+                           "(spec_holds on the configuration of run k; C05_history)",
+                  what=what, sig=sig)
+    v.full_obs = o
+    return v
+
+
+def _hist_reductions(steps):
+    import copy
+    out = []
+    n = len(steps)
+    if n > 2:                                   # drop a step before the last one
+        for j in range(n - 1):
+            d = copy.deepcopy(steps[:j] + steps[j + 1:])
+            out.append(d)
+    if all(st["mode"] != "custom" for st in steps):
+        keys = list(dict.fromkeys(p["key"] for st in steps for p in st["params"]))
+        for key in keys:                        # sweep one key less, in every step
+            d = copy.deepcopy(steps)
+            for st in d:
+                st["params"] = [p for p in st["params"] if p["key"] != key]
+            if all(any(p["enabled"] for p in st["params"]) for st in d):
+                out.append(d)
+        for j, st in enumerate(steps):          # shorter value lists, literal instead of expression
+            for k, p in enumerate(st["params"]):
+                if p["kind"] == "lit" and p.get("expr"):
+                    d = copy.deepcopy(steps)
+                    d[j]["params"][k].pop("expr")
+                    out.append(d)
+                elif p["kind"] == "lit" and len(p["values"]) > 1:
+                    d = copy.deepcopy(steps)
+                    del d[j]["params"][k]["values"][-1]
+                    out.append(d)
+    else:
+        for j, st in enumerate(steps):
+            if st["mode"] == "custom" and len(st["table"]) > 1:
+                d = copy.deepcopy(steps)
+                del d[j]["table"][-1]
+                out.append(d)
+    for d in out:
+        for j in range(1, len(d)):
+            if d[j].get("edit_style") == "inplace":
+                d[j]["edit_style"] = "replace"
+    return out
+
+
+def shrink_history(ctx: Ctx, steps, rounds=6):
+    """Greedy: keep a reduction in which the LAST run still violates the specification while the same configuration
+    on a new object does not."""
+    def size(st):
+        return (len(st), sum(len(x["params"]) for x in st), sum(len(p.get("values", [])) for x in st for p in x["params"]),
+                sum(len(x["table"]) for x in st))
+    for rnd in range(rounds):
+        cands = sorted(_hist_reductions(steps), key=size)[:16]
+        if not cands:
+            break
+        obs = core.run_driver(ctx, "c05", [dict(history=d) for d in cands] + [d[-1] for d in cands], workers=4, chunk=4)
+        ho, so = obs[:len(cands)], obs[len(cands):]
+        good = []
+        for d, a, b in zip(cands, ho, so):
+            if "history" in a and len(a["history"]) == len(d) and "crash" not in b and "driver_error" not in b:
+                good.append((d, a["history"], b))
+        if not good:
+            break
+        ok1, ev1, _ = core.coq_eval(ctx, f"hshrink_{rnd}", emit_hist_file([list(zip(d, a)) for d, a, _ in good]))
+        ok2, ev2, _ = core.coq_eval(ctx, f"hshrink_s{rnd}", emit_file([(d[-1], b) for d, _, b in good]))
+        if not (ok1 and ok2 and len(ev1) == 2 and len(ev2) == 2):
+            break
+        hv = set(core.parse_int_list(ev1[1]))
+        sv = set(core.parse_int_list(ev2[1]))
+        keep = [d for i, (d, _, _) in enumerate(good) if (i * 100 + len(d) - 1) in hv and i not in sv]
+        if not keep:
+            break
+        steps = min(keep, key=size)
+    return steps
+
+
+def history_leg(ctx: Ctx, hists, tag="h"):
+    """Run every history on one object; judge every run, inside Coq, against the configuration at that time
+    (hist_violations) and against the model of the object as coded (hist_mismatches)."""
+    obs = core.run_driver(ctx, "c05", hists, workers=8, chunk=max(6, min(20, (len(hists) + 7) // 8)))
+    again = [i for i, o in enumerate(obs) if "crash" in o]
+    if again and len(again) < len(hists):
+        ctx.log(f"re-running {len(again)} histor(y/ies) whose worker was killed")
+        for i, o in zip(again, core.run_driver(ctx, "c05", [hists[i] for i in again], workers=4, chunk=4)):
+            obs[i] = o
+    hp = _hist_pairs(ctx, hists, obs)
+    files, per = {}, 12
+    for k in range(0, len(hp), per):
+        files[f"{tag}_{k // per:03d}"] = emit_hist_file([pairs for _, pairs in hp[k:k + per]])
+    res = core.coq_eval_many(ctx, files, timeout=600, par=8)
+    mism, viol = [], []
+    for k, name in enumerate(sorted(files)):
+        ok, evals, se = res[name]
+        chunk = hp[k * per:(k + 1) * per]
+        if not ok or len(evals) != 2:
+            ctx.broken.append(Broken("correspondence", f"history file {name}.v did not evaluate", core.tail(se, 15)))
+            continue
+        mism += [(chunk[i // 100], i % 100) for i in core.parse_int_list(evals[0])]
+        viol += [(chunk[i // 100], i % 100) for i in core.parse_int_list(evals[1])]
+    nruns = 0
+    for h, pairs in hp:
+        ctx.count("histories")
+        ctx.dist("history_runs", len(pairs))
+        for j, (c, o) in enumerate(pairs):
+            nruns += 1
+            ctx.count("evaluations", max(1, len(o["runs"])))
+            ctx.count("observations")
+            ctx.dist("history_mode", c["mode"] + ("/dask" if c.get("dask") else ""))
+            if j:
+                ctx.dist("history_edit", f"{c.get('edit')}/{c.get('edit_style')}")
+                ctx.dist("history_objects", c.get("objects", "same"))
+                ctx.dist("history_outcome_after_edit", o["raised"] or "ok")
+    ctx.cov["history_runs_judged"] = ctx.cov.get("history_runs_judged", 0) + nruns
+    return mism, viol, hp
+
+
+def history_violations(ctx: Ctx, mism, viol):
+    """Violations of the history leg -> core.Violation (the configuration of the failing run is run once more on a
+    NEW object to tell a violation that needs the history from one the configuration alone gives)."""
+    if not viol:
+        return []
+    unexplained = {(id(hp[0]), k) for hp, k in mism}
+    singles = [hp[1][k][0] for hp, k in viol]
+    sobs = core.run_driver(ctx, "c05", singles, workers=8, chunk=6)
+    okp = [(c, o) for c, o in zip(singles, sobs) if "crash" not in o and "driver_error" not in o]
+    alone_bad = set()
+    if okp:
+        ok, evals, se = core.coq_eval(ctx, "hist_alone", emit_file(okp))
+        if ok and len(evals) == 2:
+            alone_bad = {id(okp[i][0]) for i in core.parse_int_list(evals[1])}
+    out = []
+    for (h, pairs), k in viol:
+        c = pairs[k][0]
+        out.append(hist_violation(h, pairs, k, explained=(id(h), k) not in unexplained,
+                                  alone_ok=id(c) not in alone_bad))
+    return out
+
+
+
 def new_violations(ctx: Ctx):
     fs = core.load_findings(ctx.prop)
     return [v for v in ctx.violations if not any(core.finding_matches(e, v) for e in fs)]
@@ -726,6 +1182,10 @@ def run(ctx: Ctx):
         "product/custom requests have distinct enabled keys (a repeated key is only meaningful in sequential mode)",
         "on the dask path the executed runs are compared as a multiset and ONE further execution of a requested run is "
         "allowed (run_pipelines_with_dask runs the first cell once more to learn the output shape)",
+        "histories: 2..3 runs of one Observation object; between two runs ONE edit through public attributes (configured "
+        "value of a detector field / model argument on the same or on another detector+pipeline, parameter list replaced / "
+        "edited in place / mode object rebuilt, custom table, with_dask, product<->sequential); custom-mode histories only "
+        "hold tables that fit their parameters (CustomMode.build validates at construction, not at run time)",
     ]
     try:
         gen = {"Gen_C05.v": tr.translate(ctx.repo)}
@@ -735,9 +1195,15 @@ def run(ctx: Ctx):
         gen = {"Gen_C05.v": tr.FALLBACK}
     ctx.cov["src_cfg"] = gen["Gen_C05.v"].strip().splitlines()[-1]
     set_flags(gen["Gen_C05.v"])
+    import time
+    t0 = time.time()
+    phases = ctx.cov.setdefault("phase_seconds", {})
     core.proof_leg(ctx, gen, PROP_FILE)
-    cases = gen_cases(ctx, ctx.budget(400, 1500), ctx.budget(160, 600))
+    phases["proof_leg"] = round(time.time() - t0, 1)
+    t0 = time.time()
+    cases = gen_cases(ctx, ctx.budget(340, 1500), ctx.budget(160, 600))
     mism, viol, pairs = correspondence(ctx, cases)
+    phases["single_runs"] = round(time.time() - t0, 1)
     distinct = {canon(c) for c, _ in pairs if nontrivial(c)}
     ctx.cov["distinct_nontrivial"] = len(distinct)
     ctx.cov["rule"] = ("non-trivial = at least two enabled parameters with lists of different lengths (product, "
@@ -754,6 +1220,25 @@ def run(ctx: Ctx):
         v = to_violation(c, o, explained=id(c) not in unexplained)
         ctx.dist("spec_violation", f"{v.clause}/{c['mode']}{'/dask' if c.get('dask') else ''}")
         vs.append(v)
+    # ---- histories: ONE Observation object run, edited in place, run again (2..3 runs)
+    t0 = time.time()
+    hists = gen_histories(ctx, ctx.budget(84, 300))
+    hmism, hviol, hp = history_leg(ctx, hists)
+    phases["histories"] = round(time.time() - t0, 1)
+    ctx.cov["histories"] = len(hp)
+    ctx.cov["history_distinct_nontrivial"] = len({json.dumps([canon(c) for c, _ in pairs]) for _, pairs in hp
+                                                   if len(pairs) >= 2 and canon(pairs[0][0]) != canon(pairs[-1][0])})
+    ctx.cov["traces_validated_against_impl"] = len(pairs) + sum(len(x) for _, x in hp)
+    ctx.cov["disagreements_checked"] = len(mism) + len(hmism)
+    for (h, hpairs), k in hmism:
+        c, o = hpairs[k]
+        ctx.broken.append(Broken("correspondence", "Model/ParamSpace.v (object with a past) vs implementation",
+                                 f"model and implementation differ on run {k + 1} of a history on one {c['mode']} "
+                                 f"observation object ({o['raised'] or 'ran'}, {len(o['runs'])} runs)",
+                                 dict(case=dict(history=[x for x, _ in hpairs[:k + 1]]), observed=o)))
+    for v in history_violations(ctx, hmism, hviol):
+        ctx.dist("spec_violation", f"{v.clause}/{v.sig['mode']}{'/dask' if v.sig['dask'] else ''}/history")
+        vs.append(v)
     # core.finish reports at most five distinct signatures: put one violation of every clause first
     first, rest, seen = [], [], set()
     for v in vs:
@@ -768,6 +1253,17 @@ def run(ctx: Ctx):
             continue
         done.add(key)
         try:
+            if "history" in v.case:
+                st2 = shrink_history(ctx, v.case["history"])
+                if len(json.dumps(st2)) < len(json.dumps(v.case["history"])):
+                    o2 = core.run_driver(ctx, "c05", [dict(history=st2)], workers=1)[0]
+                    if "history" in o2 and len(o2["history"]) == len(st2):
+                        w = hist_violation(dict(history=st2), list(zip(st2, o2["history"])), len(st2) - 1, True, True)
+                        w.clause, w.sig = v.clause, v.sig
+                        w.what = w.what.rsplit(": ", 1)[0] + ": " + v.clause if not o2["history"][-1].get("raised") else w.what
+                        (first if k < len(first) else rest)[k if k < len(first) else k - len(first)] = w
+                        ctx.count("shrunk_cases")
+                continue
             c2, o2, e2 = shrink(ctx, v.case, v.full_obs, id(v.case) not in unexplained)
             if c2 is not v.case:
                 w = to_violation(c2, o2, e2)
@@ -799,6 +1295,17 @@ def search(ctx: Ctx):
     for c, o in viol:
         ctx.violations.append(to_violation(c, o, explained=id(c) not in unexplained))
     ctx.cov["search_cases"] = len(pairs)
+    # histories: every kind of edit, every mode, both paths
+    hists = []
+    for _ in range(ctx.budget(2, 6)):
+        for mode in ("sequential", "product", "custom"):
+            for dask in (False, True):
+                for kind in EDIT_KINDS[:10:2] + ["toggle", "reorder"]:
+                    hists.append(gen_history(r, mode, r.choice(["L1", "L3"]), dask=dask, edits=[kind, r.choice(EDIT_KINDS)],
+                                             nruns=r.choice([2, 3])))
+    hmism, hviol, hp = history_leg(ctx, hists, tag="sh")
+    ctx.violations += history_violations(ctx, hmism, hviol)
+    ctx.cov["search_histories"] = len(hp)
 
 
 def replay(ctx: Ctx, rp: dict) -> int:
@@ -808,8 +1315,13 @@ def replay(ctx: Ctx, rp: dict) -> int:
         print(rp.get("detail", ""))
         return 1
     obs = core.run_driver(ctx, "c05", [case], workers=1)[0]
-    print("case:", json.dumps({k: case.get(k) for k in ("mode", "dask", "params", "table", "range")})[:1500])
-    print("implementation now returns:", json.dumps(obs)[:1500])
+    if "history" in case:
+        for k, st in enumerate(case["history"]):
+            print(f"configuration at run {k + 1} ({st.get('edit')}, {st.get('edit_style', '-')}):",
+                  json.dumps({q: st.get(q) for q in ("mode", "dask", "params", "slots", "table", "range")})[:1200])
+    else:
+        print("case:", json.dumps({k: case.get(k) for k in ("mode", "dask", "params", "table", "range")})[:1500])
+    print("implementation now returns:", json.dumps(obs)[:2500])
     if "crash" in obs or "driver_error" in obs:
         return 1
     core.ensure_lib(ctx, targets=["theories/Model/ParamSpace.vo"])
@@ -822,7 +1334,16 @@ def replay(ctx: Ctx, rp: dict) -> int:
     gd.mkdir(parents=True, exist_ok=True)
     (gd / "Gen_C05.v").write_text(gen)
     core.coqc(ctx, gd / "Gen_C05.v", [(gd, "PyxelGen")])
-    ok, evals, se = core.coq_eval(ctx, "replay", emit_file([(case, obs)]))
+    if "history" in case:
+        if "history" not in obs or len(obs["history"]) != len(case["history"]):
+            print("the history could not be run to its end")
+            return 1
+        ok, evals, se = core.coq_eval(ctx, "replay", emit_hist_file([list(zip(case["history"], obs["history"]))]))
+        if ok:
+            print("runs that break the specification for the configuration at that time:",
+                  [i % 100 + 1 for i in core.parse_int_list(evals[1])])
+    else:
+        ok, evals, se = core.coq_eval(ctx, "replay", emit_file([(case, obs)]))
     bad = (not ok) or core.parse_int_list(evals[1]) != []
     print("specification (evaluated in Coq):", "VIOLATED" if bad else "holds")
     return 1 if bad else 0
@@ -840,11 +1361,17 @@ META = dict(
         "with its own data, nothing else is stored, and the merge fails exactly on equal labels with different data; for "
         "each mode the modelled observation as a whole runs and maps each run's labels to that run's data. Dask path: for "
         "every reordering of the levels the product cells are the requested runs, each once, each found under the label "
-        "made of exactly its values; custom cells take the requested columns; sequential mode is refuted beyond one "
-        "parameter and duplicate values are refused (open findings, full statements kept visible). That the hand-written "
+        "made of exactly its values; custom cells take the requested columns; whether sequential rows are the requested "
+        "runs and a repeated value is accepted is decided by what the source does (both repaired under C07; full "
+        "statements kept visible). Histories on ONE "
+        "object: for every op sequence Run | Edit (configured value, parameter list, custom table, with_dask, mode) and "
+        "every past of the object, run k does exactly what a new object configured like the object at that moment does "
+        "(C05_history, by induction; the object's only state, Observation.parameter_types, is rebuilt on every run -- read "
+        "from the source; a fail-closed syntactic net excludes any other state on the run path). That the hand-written "
         "loops of the model are what the code does, and that the returned DataTree stores each run's data under that "
         "run's labels, is established by correspondence (testing): real observations on both paths with a probe model "
-        "that records what each run received; run list and complete label->data map compared and judged inside Coq."),
+        "that records what each run received, single runs and 2..3-run histories on one object edited in place; run list "
+        "and complete label->data map of every run compared and judged inside Coq against the configuration at that time."),
     level_note=(
         "Trusted: Coq kernel + vm_compute; the translator (declarative parts only, fail-closed) and the hand-written model "
         "of the loops; the harness, driver and probe; itertools/zip/dict/pandas/xarray/dask semantics as modelled. The "
